@@ -55,10 +55,41 @@ def perform(op, ctx):
     return res
 
 
+def _clone(obj, how):
+    """the caller works with a COPY of an object it holds (copy / deepcopy / a pickle round trip, as when work is handed
+    to another process): a copy is the same arguments, so the computation must give the same result"""
+    import copy
+    import pickle
+    if how == "copy":
+        return copy.copy(obj)
+    if how == "deepcopy":
+        return copy.deepcopy(obj)
+    return pickle.loads(pickle.dumps(obj))
+
+
 def _perform(op, ctx):
     pb = lib.pb
     k = op["op"]
     b = ctx.b
+    if op.get("clone") and k in ("fire", "elev"):
+        cl = op["clone"]
+        calc, shot = b.calc(op["calc"]), b.shot(op["shot"])
+        if cl["what"] in ("calc", "both"):
+            calc = _clone(calc, cl["how"])
+        if cl["what"] in ("shot", "both"):
+            shot = _clone(shot, cl["how"])
+        if k == "elev":
+            return calc.barrel_elevation_for_target(shot, ctx.arg(op["dist"]))
+        kw = {}
+        if op.get("step") is not None:
+            kw["trajectory_step"] = ctx.arg(op["step"])
+        if op.get("extra"):
+            kw["extra_data"] = True
+        if op.get("time_step"):
+            kw["time_step"] = op["time_step"]
+        hit = calc.fire(shot, ctx.arg(op["range"]), **kw)
+        ctx.hits[op.get("_idx")] = hit
+        return hit
     if k == "fire":
         kw = {}
         if op.get("step") is not None:
